@@ -69,12 +69,18 @@ Record Inv (st : state) : Prop := {
                               p_sess pa <> p_sess pb
 }.
 
-(* a quiescent store: no actors, mutexes free *)
-Record Quiet (st : state) : Prop := {
-  q_procs : forall a, s_procs st a = None;
-  q_mu : s_mu st = None;
-  q_tmu : forall t, s_tmu st t = None
+(* the part of the invariant that does not mention actors: what a store must satisfy when a set of
+   actors is spawned on it *)
+Record SInv (st : state) : Prop := {
+  si_valid : Valid (s_log st);
+  si_next : forall c n, s_next st c = Some n -> n = cnext st c;
+  si_fresh : forall c, s_fresh st <= c -> cnext st c = 0 /\ s_next st c = None;
+  si_tasks : forall t, s_tmu st t = None -> s_tcnt st t = tnext st t
 }.
+
+(* no actor is inside a call *)
+Definition AllIdle (st : state) : Prop :=
+  forall a p, s_procs st a = Some p -> p_ph p = PIdle.
 
 (* what a restart needs of the files it finds: the log validates and ids not handed out yet are
    unused.  Nothing is required of the sidecars (absent, torn, stale prefix, anything): since the S3
